@@ -77,6 +77,7 @@ type BaseStore struct {
 	muIndex             sync.RWMutex
 	muJoining           sync.Mutex
 	muLocalHeads        sync.Mutex
+	unloadedHeads       map[string][]ipfslog.Entry
 	muReplicationStatus sync.Mutex
 	sortFn              ipfslog.SortFn
 	logger              *zap.Logger
@@ -437,6 +438,11 @@ func (b *BaseStore) Drop() error {
 	if err != nil {
 		return fmt.Errorf("unable to destroy cache: %w", err)
 	}
+
+	// the heads of earlier sessions are gone with the cache
+	b.muLocalHeads.Lock()
+	b.unloadedHeads = map[string][]ipfslog.Entry{"_localHeads": nil, "_remoteHeads": nil}
+	b.muLocalHeads.Unlock()
 
 	// TODO: Destroy cache? b.cache.Delete()
 
@@ -986,6 +992,42 @@ func (b *BaseStore) acceptedEntriesOnly(l *ipfslog.IPFSLog) (*ipfslog.IPFSLog, b
 	return kept, true
 }
 
+// headsToCache returns what is to be cached under key: the log's current heads, and the heads
+// an earlier session cached there that this log does not hold. A store may be written to, or
+// replicate, before it is loaded (or without ever being loaded): overwriting the cached heads
+// with those of the fresh log would cut the persisted history off for good. The cache is
+// read once per key; muLocalHeads must be held
+func (b *BaseStore) headsToCache(ctx context.Context, key string, oplog ipfslog.Log) []ipfslog.Entry {
+	if b.unloadedHeads == nil {
+		b.unloadedHeads = map[string][]ipfslog.Entry{}
+	}
+
+	unloaded, known := b.unloadedHeads[key]
+	if !known {
+		if raw, err := b.Cache().Get(ctx, datastore.NewKey(key)); err == nil && len(raw) > 0 {
+			var cached []*entry.Entry
+			if err := json.Unmarshal(raw, &cached); err == nil {
+				for _, h := range cached {
+					if h != nil {
+						unloaded = append(unloaded, h)
+					}
+				}
+			}
+		}
+	}
+
+	// what has been loaded or merged since is covered by the log's own heads
+	kept := unloaded[:0:0]
+	for _, h := range unloaded {
+		if _, ok := oplog.Get(h.GetHash()); !ok {
+			kept = append(kept, h)
+		}
+	}
+	b.unloadedHeads[key] = kept
+
+	return append(oplog.Heads().Slice(), kept...)
+}
+
 func intPtr(i int) *int {
 	return &i
 }
@@ -1017,7 +1059,7 @@ func (b *BaseStore) AddOperation(ctx context.Context, op operation.Operation, on
 	// the log's current heads, one writer at a time, so that the one who comes last cannot
 	// put an older entry back as the only cached local head
 	b.muLocalHeads.Lock()
-	marshaledEntry, err := json.Marshal(oplog.Heads().Slice())
+	marshaledEntry, err := json.Marshal(b.headsToCache(ctx, "_localHeads", oplog))
 	if err != nil {
 		b.muLocalHeads.Unlock()
 		return nil, fmt.Errorf("unable to marshal entry: %w", err)
@@ -1164,7 +1206,9 @@ func (b *BaseStore) replicationLoadComplete(ctx context.Context, logs []ipfslog.
 	// only store heads that has been verified and merges
 	heads := oplog.Heads()
 
-	headsBytes, err := json.Marshal(heads.Slice())
+	b.muLocalHeads.Lock()
+	headsBytes, err := json.Marshal(b.headsToCache(ctx, "_remoteHeads", oplog))
+	b.muLocalHeads.Unlock()
 	if err != nil {
 		b.Logger().Error("unable to serialize heads cache", zap.Error(err))
 		return
